@@ -81,11 +81,22 @@ def random_bag(rng, cands, max_ballots, tied=False, rational=0.3, wmax=4, min_ba
 AWKWARD = ["zoë", "Bob Smith", "a", "Ω-3", "b,c", "\"q\"", "Z", "10", "9", " x"]
 
 
+# names in a proper-substring relation (numbered candidates c1 / c10, Ann / JoAnn / Anna, A / AB): a name is an atom, never a piece of text
+NESTED = ["Ann", "JoAnn", "Anna", "c1", "c10", "c11", "A", "AB", "ABC", "B", "1", "10"]
+
+
+def sample_names(rng, k):
+    """k distinct concrete names; 35 % of the time all of them come from the pool of names nested in one another"""
+    if rng.random() < 0.35 and k <= len(NESTED):
+        return rng.sample(NESTED, k)
+    return rng.sample(AWKWARD, k)
+
+
 def concretisations(rng, cands, ballots, n):
     """n concrete presentations of one abstract input: renaming, ballot order, weight splitting, candidate order"""
     out = []
     for i in range(n):
-        names = rng.sample(AWKWARD, len(cands))
+        names = sample_names(rng, len(cands))
         nm = dict(zip(cands, names))
         bl = []
         for b in ballots:
